@@ -177,7 +177,11 @@ def _save_report(path, report, partial):
 
 
 def mutants(names):
-    from mutants.make_mutants import MUTANTS
+    from mutants.make_mutants import MUTANTS, OTHER_FILES
+
+    MUTANTS = dict(MUTANTS)
+    for k, (rel, fn, props) in OTHER_FILES.items():
+        MUTANTS[k] = (fn, props)
 
     root = scratch_root()
     report = {}
